@@ -233,6 +233,29 @@ def together_with_relation_history():
     return specs, evos
 
 
+def rename_beside_together_history():
+    """a model with index_together (and, in the second variant, unique_together): a field that is in neither is
+    renamed, and a later version drops the entries - the versions' models are written down here, not simulated"""
+    def fld(name, t, related=None, **attrs):
+        return {'name': name, 'type': t, 'attrs': attrs, 'related': related}
+
+    def book(third, it, ut):
+        return {'apps': [{'id': 'vapp', 'models': [
+            {'name': 'Book', 'table': 'vapp_book', 'unique_together': ut, 'index_together': it, 'indexes': [],
+             'constraints': [], 'fields': [fld('id', 'AutoField', primary_key=True),
+                                           fld('title', 'CharField', max_length=20, null=True),
+                                           fld('year', 'IntegerField', null=True),
+                                           fld('shelf', 'IntegerField', null=True),
+                                           fld(third, 'CharField', max_length=20, null=True)]}]}]}
+    it, ut = [['title', 'year']], [['year', 'shelf']]
+    specs = [book('author_name', it, ut), book('writer', it, ut), book('writer', [], ut), book('writer', [], [])]
+    evos = [[{'t': 'RenameField', 'model': 'Book', 'old': 'author_name', 'new': 'writer', 'db_column': None,
+              'db_table': None}],
+            [{'t': 'ChangeMeta', 'model': 'Book', 'prop': 'index_together', 'py_value': []}],
+            [{'t': 'ChangeMeta', 'model': 'Book', 'prop': 'unique_together', 'py_value': []}]]
+    return specs, evos
+
+
 def new_model_history():
     """a model that first appears in a later version (with a foreign key and an indexed column: its indexes are
     deferred SQL of the model creation), next to ordinary evolutions of an older model"""
@@ -326,7 +349,7 @@ def muts_of(e):
     return [m for _, _, ms in parts(0, e) for m in ms]
 
 
-SCRIPTED = [scripted_history, two_app_history, signature_only_history, new_model_history, readd_history, rename_model_history, reuse_after_rename_history, twice_changed_history,
+SCRIPTED = [rename_beside_together_history, scripted_history, two_app_history, signature_only_history, new_model_history, readd_history, rename_model_history, reuse_after_rename_history, twice_changed_history,
             together_with_relation_history]
 
 
